@@ -683,6 +683,41 @@ def w_shared_context(task):
     return part
 
 
+def overflow_edge_points(dtname):
+    """x*y (or z) at or next to +-largest, the other addend a small multiple of half an ULP of largest with the opposite
+    sign: the exact result is finite and representable or a tie next to largest (the overflow guards must not misfire)"""
+    t = DT[dtname]
+    fi = np.finfo(t)
+    mx = float(fi.max)
+    u = mx - float(np.nextafter(t(mx), t(0)))  # ulp(largest) (numpy.spacing(max) is inf)
+    pts = []
+    prods = [(mx, 1.0), (mx / 2, 2.0), (mx / 4, 4.0), (float(np.nextafter(t(mx), t(0))), 1.0), (mx / 2, 1.0), (float(np.sqrt(mx)), float(np.sqrt(mx)) / 2)]
+    for x, y in prods:
+        for k in (0.5, 1.0, 1.5, 2.0, 2.5, 3.0, 4.0, 6.0):
+            for sg in (1.0, -1.0):
+                pts.append((sg * x, y, -sg * k * u))
+                pts.append((sg * x, -y, sg * k * u))
+                # roles swapped: z at the edge, the product small
+                pts.append((-sg * k * u / 8.0, 8.0, sg * x * y if abs(x * y) <= mx else sg * mx))
+    return pts
+
+
+def w_overflow_edge(task):
+    fa = setup_repo_import()
+    part = new_part()
+    for dtname in ("float16", "float32"):
+        t = DT[dtname]
+        pts = overflow_edge_points(dtname)
+        with np.errstate(all="ignore"):
+            X, Y, Z = (np.array(c, dtype=t) for c in zip(*pts))
+        ok = np.isfinite(X) & np.isfinite(Y) & np.isfinite(Z)
+        check3(part, fa, dtname, X[ok], Y[ok], Z[ok], what=("mul_add", "fma"), route="vec")
+    pts = [p_ for p_ in overflow_edge_points("float64") if all(np.isfinite(v) for v in p_)]
+    check64(part, fa, pts)
+    part["samples"].append({"overflow_edge_points": len(pts)})
+    return part
+
+
 def w_selftest(task):
     part = new_part()
     n = rn_sum2_selftest(task["dtype"], task["seed"])
@@ -697,6 +732,7 @@ def run(run):
         build_funcs(fa, dtname)  # built once in the parent; forked workers inherit the compiled evaluators
     run.counters["compiled_evaluators"] = sum(1 for d in _FUNCS.values() for f in d.values() if not isinstance(f, Exception))
     run.map(MOD, "w_selftest", [dict(dtype="float16", seed=run.seed), dict(dtype="float32", seed=run.seed)])
+    run.map(MOD, "w_overflow_edge", [dict()])
     run.map(MOD, "w_shared_context", [dict(length=2)] + ([dict(length=3)] if run.tier == "thorough" else []))
     tasks = []
     allb = np.arange(1 << 16, dtype=np.int64)
